@@ -1,6 +1,7 @@
 package streams
 
 import (
+	"sort"
 	"github.com/paulsonkoly/chess-3/board"
 	"github.com/paulsonkoly/chess-3/move"
 
@@ -23,12 +24,12 @@ func runC01reach(a hx.Args) string {
 	for k := 0; k < n; k++ {
 		b.MakeMove(move.Move(a.U64(i + 1 + k)))
 	}
-	legal := posgen.Legal(b)
-	out := (&hx.Nums{}).Int(len(legal))
-	for _, m := range legal {
-		out.U(uint64(m))
+	var l []uint64
+	for _, m := range posgen.Legal(b) {
+		l = append(l, uint64(m))
 	}
-	return out.String()
+	sort.Slice(l, func(i, j int) bool { return l[i] < l[j] }) // the property is about the set of moves
+	return (&hx.Nums{}).Int(len(l)).U(l...).String()
 }
 
 func genC01reach(rng *hx.Rng, n int, tier string, emit func(hx.Input)) {
